@@ -27,7 +27,8 @@ def run(ctx):
     # ------------------------------------------------------------------ C12-a
     fp = ru.need(ctx, "C12-a", H + "Field::parse")
     if fp:
-        ms = tables.match_tables(prog, fp.key)
+        # the name table is the match whose patterns are byte-string literals (other matches of the function do not matter)
+        ms = [m for m in tables.match_tables(prog, fp.key) if any(isinstance(pat, bytes) for pat, _, _ in m)]
         want = {b":scheme": "Scheme", b":authority": "Authority", b":path": "Path", b":method": "Method", b":status": "Status", b":protocol": "Protocol"}
         ok = len(ms) == 1
         got = {}
